@@ -57,7 +57,8 @@ def judge(expected, ev, rec, check_ctx=False, check_log=False):
             return "viol-rejected", "well-formed program was rejected: %s" % rec.get("perr")
         if rec.get("p") == "panic":
             return "viol-panic", "parse panicked: %s" % rec.get("ppanic")
-        return "viol-norecord", "no result recorded"
+        # a record without a result is a defect of the run (truncated / overwritten output), never a verdict about the engine
+        return "norecord", "no result recorded"
     got = ref.outcome_from_record(res)
     if got[0] == "panic" and expected[0] != "panic":
         return "viol-panic", "evaluation panicked: %s @ %s" % (got[1], got[2])
